@@ -557,7 +557,7 @@ def r5_finish_order(ck, F, R="C01-R5"):
                     between = mut_uses_between(b, cs, l, writer_sink_mut)
                     ck.ob(R, f"root-offset-before-write/{b.loc(l)}", b.dominates(cs, l) and not between, "count() of the iteration dominates that iteration's block write with no sink write in between", b, cs)
         fv = agg_field_expr(b, s, rv, "file_version")
-        ck.ob(R, "writes-v2", fv.k == "agg" and fv.x.get("variant") == "FormatV2", f"Metadata.file_version := {fv.show()}", b, s)
+        ck.ob(R, "writes-v2", variant_of(F, fv) == "FormatV2", f"Metadata.file_version := {fv.show()} ({variant_of(F, fv)})", b, s)
     wi = calls(b, A("meta_write"))
     ck.exact(R, "Metadata::write_into sites", len(wi), 1, F.config)
     fin = calls(b, A("count_into_inner"))
@@ -590,7 +590,10 @@ def r6_depth(ck, F):
     for s, c, t in fe:
         n = bld.arg_exprs(s)[1]
         c_ = checked(n)
-        ok = bool(c_ and c_[0] == "Add" and const_val(c_[2]) == 1 and strip_casts(c_[1]).k == "field" and is_self_field(strip_casts(c_[1]), "index_levels") and c_[1].strip().k == "cast" and c_[1].strip().x["to"] == "usize")
+        # widened to usize before the addition: `x as usize` or `usize::from(x)` (strip() sees through the latter,
+        # a lossless widening; an addition done in u8 would show as an Add under the cast instead)
+        wide = c_ is not None and ((c_[1].strip().k == "cast" and c_[1].strip().x["to"] == "usize") or (c_[1].k == "call" and "From<u8> for usize" in c_[1].x.get("path", "")) or any(w.k == "call" and "From<u8> for usize" in w.x.get("path", "") for w in c_[1].walk()))
+        ok = bool(c_ and c_[0] == "Add" and const_val(c_[2]) == 1 and strip_casts(c_[1]).k == "field" and is_self_field(strip_casts(c_[1]), "index_levels") and wide)
         ck.ob(R, "levels-plus-one-writers", ok, f"index writer vector length = {n.show()} (expected self.index_levels as usize + 1, widened before adding)", bld, s)
     for b, s, rv in aggregates(F, A("writer_struct")):
         e = agg_field_expr(b, s, rv, "index_block_writers")
